@@ -178,10 +178,10 @@ class Driver:
                         "A2: Scalar29 Karatsuba column sums are the true sums (< 9*2^58)"))
         return out
 
-    def root_candidates(self, module_rx, exclude_rx=None):
+    def root_candidates(self, module_rx, exclude_rx=None, exported_only=True):
         out = []
         for f in self.F.fns.values():
-            if "mir" not in f or f["kind"] == "Closure" or f.get("derived") or f["crate"] != "curve25519_dalek" or not f.get("exported"):
+            if "mir" not in f or f["kind"] == "Closure" or f.get("derived") or f["crate"] != "curve25519_dalek" or (exported_only and not f.get("exported")):
                 continue
             if not re.search(module_rx, f["key"]):
                 continue
@@ -190,8 +190,49 @@ class Driver:
             out.append(f)
         return out
 
-    def run_root(self, f, overrides=None):
+    # ------------------------------------------------------------------ abstract collections for generic / slice parameters
+    def coll_iter(self, elem, n_hi=2**20):
+        """marker value: the driver materialises a vector summary in the root frame and passes a slice iterator over it"""
+        return ("__coll_iter", elem, n_hi)
+
+    def coll_slice(self, elem, n_hi=2**20):
+        return ("__coll_slice", elem, n_hi)
+
+    def generic_overrides(self, f):
+        """parameter values for the generic / slice-taking public functions (A3: abstract collections of invariant-satisfying elements)"""
+        p = f["path"]
+        inv = self.inv
+        EP, RP, SC = "curve25519_dalek::edwards::EdwardsPoint", "curve25519_dalek::ristretto::RistrettoPoint", "curve25519_dalek::scalar::Scalar"
+        ep, rp, sc = inv.value(EP), inv.value(RP), inv.value(SC)
+        tr = f.get("trait") or ""
+        nm = f.get("name")
+        st = f.get("self_ty") or ""
+        if p.endswith("RistrettoPoint::double_and_compress_batch"):
+            return {0: self.coll_iter(rp)}
+        if not getattr(self, "all_generic_roots", False):
+            if p.endswith("MontgomeryPoint::mul_bits_be"):
+                return {1: self.coll_iter(I(0, 1), 300)}
+            return None
+        if nm == "multiscalar_mul" and tr.endswith("traits::MultiscalarMul"):
+            pt = rp if "Ristretto" in st else ep
+            return {0: self.coll_iter(sc), 1: self.coll_iter(pt)}
+        if nm == "optional_multiscalar_mul" and tr.endswith("traits::VartimeMultiscalarMul"):
+            pt = rp if "Ristretto" in st else ep
+            opt = ("en", ((0, ()), (1, (pt,))))
+            return {0: self.coll_iter(sc), 1: self.coll_iter(opt)}
+        if nm in ("sum", "product") and re.search(r"iter::(Sum|Product)<T>$", tr):
+            el = sc if st.endswith("Scalar") else (rp if "Ristretto" in st else ep)
+            return {0: self.coll_iter(el)}
+        if p.endswith("scalar::Scalar::batch_invert"):
+            return {0: self.coll_slice(sc)}
+        if p.endswith("MontgomeryPoint::mul_bits_be"):
+            return {1: self.coll_iter(I(0, 1), 300)}
+        return None
+
+    def run_root(self, f, overrides=None, check_ret=True):
         fv = view(self.F, f)
+        if overrides is None:
+            overrides = self.generic_overrides(f)
         vals = []
         for i in range(fv.nargs):
             ty = fv.locals[i + 1]["ty"]
@@ -206,7 +247,7 @@ class Driver:
             vals.append(v)
         t0 = time.time()
         try:
-            ret, root = self.ip.run_root(f, vals)
+            ret, root = self.ip.run_root(f, vals, colls=True)
         except Budget as e:
             self.errors.append((f, "budget: %s" % e))
             return None
@@ -217,6 +258,8 @@ class Driver:
         # invariant of the returned value and of values written through &mut parameters
         out_ty = f.get("output") or fv.locals[0]["ty"]
         inv = self.inv.value(out_ty, owner="ret") if not re.search(r"\bSelf\b", out_ty) else None
+        if not check_ret:
+            return ret
         if inv is not None and ret is not None and ret[0] not in ("ref", "sl", "cref"):
             ok, why = within(ret, self.ret_inv(out_ty))
             self.ret_obl.append((f, "return", ok, why, ret))
